@@ -3,7 +3,10 @@
 modes
   ecu     serve gallia's RandomUDSServer on the unix socket named in the job (until killed)
   inproc  run every case of the job one after the other: asyncio.run(cmd.entry_point())
-          in this process, observe the final state from outside, clean up
+          in this process, observe the final state from outside, clean up.  A case with a
+          "stock" scenario runs one of gallia's own commands instead (stock_case): a recorded
+          run first, then `script rerun` on it / `discover doip`; two observations, one for the
+          stock command's own run and one for the command it ran again
   cli     run ONE case exactly like gallia's CLI does
               sys.exit(asyncio.run(get_command(config).entry_point()))
           observe when asyncio.run() has ended, write the observation, then leave the
@@ -234,7 +237,12 @@ def same_config(a: Any, b: Any) -> bool:
     return True
 
 
-def observe(case: dict[str, Any], d: Path, cmd: Any, status: tuple[str, Any], cap: Capture) -> dict[str, Any]:
+def observe(case: dict[str, Any], d: Path, cmd: Any, status: tuple[str, Any], cap: Capture, *,
+            run_dirs: list[Path] | None = None, script: str | None = None, min_row: int = 0,
+            lock: Path | None = None, hooklog: Path | None = None) -> dict[str, Any]:
+    """The final state of ONE run, read back from outside.  By default the run owns the scratch directory `d`; runs
+    that share it (and the database) with other runs name their own artifacts directories (`run_dirs`), their
+    run_meta row (`script`: the last row of that command with id > `min_row`), lock file and hook log."""
     from harness import c15_cmds
 
     c = case["c"]
@@ -249,7 +257,10 @@ def observe(case: dict[str, Any], d: Path, cmd: Any, status: tuple[str, Any], ca
         esc, ex = "Error", 1  # what an uncaught exception makes the interpreter exit with
     o: dict[str, Any] = {"exit": ex, "escaped": esc}
     # META.json
-    metas = sorted((d / "art").glob("*/run-*/META.json")) if c["art"] else []
+    if run_dirs is None:
+        metas = sorted((d / "art").glob("*/run-*/META.json")) if c["art"] else []
+    else:
+        metas = [r / "META.json" for r in sorted(run_dirs) if (r / "META.json").exists()] if c["art"] else []
     meta = {"present": bool(metas), "exit": -1, "timesOk": False, "configOk": False}
     raw_meta = None
     if metas:
@@ -273,11 +284,14 @@ def observe(case: dict[str, Any], d: Path, cmd: Any, status: tuple[str, Any], ca
             meta["present"] = False
     o["meta"] = meta
     # log.json.zst
-    logs = sorted((d / "art").glob("*/run-*/log.json.zst")) if c["art"] else []
+    if run_dirs is None:
+        logs = sorted((d / "art").glob("*/run-*/log.json.zst")) if c["art"] else []
+    else:
+        logs = [r / "log.json.zst" for r in sorted(run_dirs) if (r / "log.json.zst").exists()] if c["art"] else []
     lg = read_log(logs[-1]) if logs else {"present": False, "complete": False, "parsedAll": False, "markers": []}
     o["log"] = {k: lg[k] for k in ("present", "complete", "parsedAll", "markers")}
     # flock
-    o["lockFree"] = probe_lock(d / "lock") if c["lock"] else True
+    o["lockFree"] = probe_lock(lock if lock is not None else d / "lock") if c["lock"] else True
     # run_meta row
     db = {"present": False, "hasEnd": False, "exit": -1}
     dbp = cmd.config.db
@@ -286,7 +300,11 @@ def observe(case: dict[str, Any], d: Path, cmd: Any, status: tuple[str, Any], ca
         try:
             con = sqlite3.connect(f"file:{dbp}?mode=ro", uri=True, timeout=5)
             try:
-                rows = con.execute("SELECT start_time, end_time, exit_code FROM run_meta ORDER BY id").fetchall()
+                if script is None:
+                    rows = con.execute("SELECT start_time, end_time, exit_code FROM run_meta ORDER BY id").fetchall()
+                else:
+                    rows = con.execute("SELECT start_time, end_time, exit_code FROM run_meta WHERE script = ? "
+                                       "AND id > ? ORDER BY id", (script, min_row)).fetchall()
             finally:
                 con.close()
             nrows = len(rows)
@@ -298,7 +316,7 @@ def observe(case: dict[str, Any], d: Path, cmd: Any, status: tuple[str, Any], ca
             o.setdefault("_raw", {})["db_error"] = repr(e)
     o["db"] = db
     # hooks
-    hk = read_hooks(d / "hook.log")
+    hk = read_hooks(hooklog if hooklog is not None else d / "hook.log")
     pre = [h for h in hk if h.get("HOOK") == "pre"]
     post = [h for h in hk if h.get("HOOK") == "post"]
     o["pre"] = min(len(pre), 9)
@@ -439,6 +457,198 @@ def one_case(case: dict[str, Any], job: dict[str, Any], cap: Capture) -> tuple[d
     return o, status
 
 
+# --------------------------------------------------------------------------- stock commands
+# Commands of gallia itself that open / use / hand over the database connection of their own run (`script rerun`
+# looks the recorded run up through it and runs a second command on the same file; `discover doip` writes its
+# results through it), run through their real entry_point().  What the harness adds is measurement only:
+#   * how the command's run() ended (returned / sys.exit(n) / raised) -- the statement maps kinds of ending to
+#     exit codes, and for a stock command the kind of ending is the command's own business;
+#   * what the entry_point() of the re-run command returned (there is no process status for a nested run).
+def watch_run(cmd: Any) -> dict[str, Any]:
+    end: dict[str, Any] = {}
+    orig = cmd.run
+
+    async def run() -> Any:
+        try:
+            r = await orig()
+        except SystemExit as e:
+            end.update(how="SystemExit", code=e.code)
+            raise
+        except BaseException as e:  # noqa: BLE001
+            end.update(how=type(e).__name__)
+            raise
+        end.update(how="return", code=r)
+        return r
+
+    cmd.run = run
+    return end
+
+
+def ending_case(c: dict[str, Any], end: dict[str, Any]) -> dict[str, Any]:
+    """The case of a stock command's own run: its resources + the way its run() was SEEN to end.  Anything but a
+    plain return / sys.exit(0..255) stays "Stock": no exit code is demanded for it (the contract's OTHER branch)."""
+    c = dict(c)
+    if end.get("how") == "return" and end.get("code") in (0, None):
+        c.update(how="Return", n=0)
+    elif end.get("how") == "SystemExit" and isinstance(end.get("code"), int) and not isinstance(end.get("code"), bool) \
+            and 0 <= end["code"] <= 255:
+        c.update(how="SysExit", n=end["code"])
+    else:
+        c.update(how="Stock", n=0)
+    return c
+
+
+def watch_entry_point(cls: Any) -> tuple[list[tuple[str, Any, Any]], Any]:
+    """Record (status kind, value, command object) of every entry_point() of `cls` from now on."""
+    seen: list[tuple[str, Any, Any]] = []
+    orig = cls.entry_point
+    own = "entry_point" in cls.__dict__
+
+    async def entry_point(self: Any) -> Any:
+        try:
+            rc = await orig(self)
+        except SystemExit as e:
+            seen.append(("SystemExit", e.code, self))
+            raise
+        except BaseException as e:  # noqa: BLE001
+            seen.append((type(e).__name__, e, self))
+            raise
+        seen.append(("return", rc, self))
+        return rc
+
+    def restore() -> None:
+        if own:
+            cls.entry_point = orig
+        else:
+            del cls.entry_point
+
+    cls.entry_point = entry_point
+    return seen, restore
+
+
+def run_dirs_of(cmd: Any) -> set[Path]:
+    base = cmd.config.artifacts_base
+    return set(Path(base).joinpath(cmd.id).glob("run-*")) if base is not None else set()
+
+
+def max_row(dbp: Path | None) -> int:
+    if dbp is None or not Path(dbp).is_file():
+        return 0
+    con = sqlite3.connect(f"file:{dbp}?mode=ro", uri=True, timeout=5)
+    try:
+        return int(con.execute("SELECT coalesce(max(id), 0) FROM run_meta").fetchone()[0])
+    finally:
+        con.close()
+
+
+def command_name(cmd: Any) -> str:
+    return f"{type(cmd).__module__}.{type(cmd).__name__}"
+
+
+def base_kw(c: dict[str, Any], d: Path, job: dict[str, Any], tag: str) -> dict[str, Any]:
+    return dict(
+        artifacts_base=(d / "art") if c["art"] else None,
+        db=(d / "db" / "db.sqlite") if c["db"] else None,
+        lock_file=(d / f"lock{tag}") if c["lock"] else None,
+        hooks=bool(c["hooks"]),
+        pre_hook=f"/bin/sh {job['hook']} {d / f'hook{tag}.log'} 0",
+        post_hook=f"/bin/sh {job['hook']} {d / f'hook{tag}.log'} 0",
+    )
+
+
+def build_recorded(rec: dict[str, Any], d: Path, job: dict[str, Any]) -> Any:
+    """The command of the recorded run: one of the test commands, or a stock primitive against the virtual ECU."""
+    if rec.get("prim") == "ping":
+        from gallia.commands.primitive.uds.ping import PingPrimitive, PingPrimitiveConfig
+
+        d.mkdir(parents=True, exist_ok=True)
+        return PingPrimitive(PingPrimitiveConfig(**base_kw(rec["c"], d, job, ""), target=f"unix-lines://{job['sock']}",
+                                                 dumpcap=False, ping=False, count=2, interval=0.0))
+    return build({"c": rec["c"]}, d, job)
+
+
+def stock_case(case: dict[str, Any], job: dict[str, Any], cap: Capture) -> dict[str, Any]:
+    from harness import c15_cmds
+
+    sc, c = case["stock"], case["c"]
+    d = Path(job["root"]) / f"case-{case['id']}"
+    d.mkdir(parents=True, exist_ok=True)
+    # a run that does not end is interrupted like a user would do it (a non-interactive parent may have SIGINT ignored)
+    prev_handler = signal.signal(signal.SIGINT, signal.default_int_handler)
+    arm_hang_watchdog(240.0)
+    WATCHDOG["fired"] = False
+    nested = None
+    try:
+        kw = base_kw(c, d, job, "-outer")
+        orig_cmd, n0, before, restore, seen = None, 0, set(), None, []
+        if sc["cmd"] == "rerun":
+            from gallia.commands.script.rerun import Rerunner, RerunnerConfig
+
+            # history: the recorded run (judged by the other families; here it only has to exist)
+            c15_cmds.PHASES.clear()
+            orig_cmd = build_recorded(sc["rec"], d, job)
+            run_entry_point(orig_cmd)
+            cleanup(orig_cmd)
+            n0 = max_row(orig_cmd.config.db)
+            before = run_dirs_of(orig_cmd)
+            (d / "hook.log").unlink(missing_ok=True)
+            if sc["via"] == "file":
+                metas = sorted(r / "META.json" for r in before)
+                if not metas or not metas[-1].exists():
+                    return {"id": case["id"], "skipped": "the recorded run left no META.json to re-run from"}
+                kw["file"] = metas[-1]
+            else:
+                if n0 < 1:
+                    return {"id": case["id"], "skipped": "the recorded run left no run_meta row to re-run from"}
+                kw["id"] = n0 if sc["via"] == "id" else n0 + 1000
+            cmd = Rerunner(RerunnerConfig(**kw))
+            seen, restore = watch_entry_point(type(orig_cmd))
+        elif sc["cmd"] == "doip":
+            from gallia.commands.discover.doip import DoIPDiscoverer, DoIPDiscovererConfig
+
+            target = ("http://127.0.0.1:1" if sc["target"] == "scheme"
+                      else "doip://127.0.0.1:1?activation_type=0x00&src_addr=0x0e00")  # nothing listens on port 1
+            cmd = DoIPDiscoverer(DoIPDiscovererConfig(**kw, target=target))
+        else:
+            raise SystemExit(f"unknown stock command {sc['cmd']}")
+        c15_cmds.PHASES.clear()
+        cap.records.clear()
+        end = watch_run(cmd)
+        try:
+            status = run_entry_point(cmd)
+        finally:
+            if restore is not None:
+                restore()
+        WATCHDOG["timer"].cancel()  # type: ignore[attr-defined]
+        oc = ending_case(c, end)
+        o = observe({"c": oc}, d, cmd, status, cap, run_dirs=sorted(run_dirs_of(cmd)), script=command_name(cmd),
+                    min_row=n0, lock=d / "lock-outer", hooklog=d / "hook-outer.log")
+        # a stock command has no phase side channel: which marker records (of the command it runs) reach its own
+        # log is not part of the statement; that every record of its log can be read back is
+        o["phases"] = list(o["log"]["markers"])
+        o["_raw"].update(ending=[end.get("how"), repr(end.get("code"))], nested_runs=len(seen),
+                         hang_watchdog_fired=WATCHDOG["fired"])
+        if WATCHDOG["fired"]:
+            o["escaped"] = "Hang"
+        if orig_cmd is not None and seen:
+            # the command that was run again: judged as the run its OWN config describes
+            kind, val, ncmd = seen[-1]
+            nc = dict(sc["rec"]["c"], art=ncmd.config.artifacts_base is not None, db=ncmd.config.db is not None,
+                      lock=ncmd.config.lock_file is not None, hooks=bool(ncmd.config.hooks))
+            no = observe({"c": nc}, d, ncmd, (kind, val), cap, run_dirs=sorted(run_dirs_of(ncmd) - before),
+                         script=command_name(ncmd), min_row=n0, lock=ncmd.config.lock_file, hooklog=d / "hook.log")
+            no["_raw"].update(nested_runs=len(seen))
+            nested = {"c": nc, "o": no}
+            cleanup(ncmd)
+        cleanup(cmd)
+    finally:
+        if "timer" in WATCHDOG:
+            WATCHDOG["timer"].cancel()  # type: ignore[attr-defined]
+        if prev_handler is not None:
+            signal.signal(signal.SIGINT, prev_handler)
+    return {"id": case["id"], "o": o, "c": oc, "nested": nested}
+
+
 # --------------------------------------------------------------------------- modes
 def mode_ecu(job: dict[str, Any]) -> None:
     from gallia.services.uds.server import RandomUDSServer, UnixUDSServerTransport
@@ -459,6 +669,12 @@ def mode_inproc(job: dict[str, Any], outp: str) -> None:
     res = []
     for case in job["cases"]:
         t0 = time.monotonic()
+        if case.get("stock"):
+            r = stock_case(case, job, cap)
+            if "o" in r:
+                r["o"]["_raw"]["wall_s"] = round(time.monotonic() - t0, 3)
+            res.append(r)
+            continue
         o, _ = one_case(case, job, cap)
         o["_raw"]["wall_s"] = round(time.monotonic() - t0, 3)
         res.append({"id": case["id"], "o": o})
